@@ -28,7 +28,7 @@ func init() {
 			"arrival time stamp of a message = accumulated Driver.Sleep time of the Send call that carried its last byte (C04)",
 			"inter-arrival gaps are kept below 0x07FFFFFF ticks at the recording tempo and resolution (a delta must be representable in the file)",
 		},
-		Require: []string{"old_driver_recordings", "recordings", "channel_messages_recorded", "non_channel_messages_sent", "realtime_sent", "syscommon_sent", "strict_validated", "read_back", "delta_checks", "file_level_recordings", "recordings_with_long_pause", "recordings_with_oversized_sysex", "long_sessions_beyond_2^32_ticks"},
+		Require: []string{"old_driver_recordings", "overdubs_into_read_files", "recordings", "channel_messages_recorded", "non_channel_messages_sent", "realtime_sent", "syscommon_sent", "strict_validated", "read_back", "delta_checks", "file_level_recordings", "recordings_with_long_pause", "recordings_with_oversized_sysex", "long_sessions_beyond_2^32_ticks"},
 		Run:     runC13,
 	})
 }
@@ -148,6 +148,7 @@ func runC13(c *mon.Ctx) {
 		var stop func()
 		var stopErr func() error
 		var err error
+		preTracks := 0
 		path := ""
 		if c.Guard("panic:RecordFrom", in, func() {
 			switch mode {
@@ -156,6 +157,26 @@ func runC13(c *mon.Ctx) {
 			case 1:
 				file = smf.New()
 				file.TimeFormat = smf.MetricTicks(res)
+				if r.P(1, 2) {
+					// overdub: the target is a file that was read (it has a tempo map of its own), not a new one
+					pre := smf.NewSMF1()
+					pre.TimeFormat = smf.MetricTicks(res)
+					var t0 smf.Track
+					t0.Add(0, smf.MetaText("existing"))
+					t0.Add(0, smf.MetaTempo(float64(r.Pick(60, 120, 133))))
+					t0.Add(uint32(res), []byte{0x9F, 60, 100})
+					t0.Add(uint32(res), []byte{0x8F, 60, 0})
+					t0.Close(0)
+					pre.Add(t0)
+					var pb bytes.Buffer
+					if _, e := pre.WriteTo(&pb); e == nil {
+						if rf, e := smf.ReadFrom(bytes.NewReader(pb.Bytes())); e == nil {
+							file = rf
+							preTracks = 1
+							c.Count("overdubs_into_read_files", 1)
+						}
+					}
+				}
 				stop, err = file.RecordFrom(l.in, bpm)
 			default:
 				dir := c.Dir
@@ -199,9 +220,9 @@ func runC13(c *mon.Ctx) {
 				stop()
 			case 1:
 				stop()
-				wantTracks := 1
+				wantTracks := 1 + preTracks
 				if addedMid {
-					wantTracks = 4
+					wantTracks += 3
 				}
 				if len(file.Tracks) != wantTracks {
 					c.Violation("file-tracks", fmt.Sprintf("SMF.RecordFrom left %d tracks, expected %d", len(file.Tracks), wantTracks), in, wantTracks, len(file.Tracks))
@@ -209,7 +230,7 @@ func runC13(c *mon.Ctx) {
 				}
 				// the recorded track is the one that starts with the tempo event
 				tr = nil
-				for _, t := range file.Tracks {
+				for _, t := range file.Tracks[preTracks:] {
 					if len(t) > 0 && t[0].Message.Is(smf.MetaTempoMsg) {
 						tr = t
 					}
